@@ -96,6 +96,12 @@ def _impl_one(op):
         signal.signal(signal.SIGALRM, old)
 
 
+def strip_root(line, root):
+    import re
+    line = re.sub(r"(?<=[ =])" + re.escape(root) + r"(?=[ ]|$)", ".", line)
+    return re.sub(re.escape(root) + r"(?=[.\[])", "", line)
+
+
 def _impl_do(op):
     kind = op[0]
     if kind == "DEC":
@@ -117,10 +123,10 @@ def _impl_do(op):
     if kind == "DECROOT":
         # the same decode below a caller-supplied root path; the prefix is stripped again so that the lines are comparable
         _, mode, tname, cc, enc, data, root = op
-        import re
-        out = canon.impl_dec(mode, tname, cc, enc, data, root=root)
-        return [re.sub(re.escape(root) + r"(?=[ .\[]|$)", lambda m: "", l).replace("= ", "= ") if root in l else l for l in
-                [re.sub(r"(?<=[ =])" + re.escape(root) + r"(?=[ ]|$)", ".", l) for l in out]]
+        return [strip_root(l, root) for l in canon.impl_dec(mode, tname, cc, enc, data, root=root)]
+    if kind == "DECROOTRAW":
+        _, mode, tname, cc, enc, data, root = op
+        return canon.impl_dec(mode, tname, cc, enc, data, root=root)
     if kind == "OBJ":
         _, mode, tname, cc, enc, data = op
         return canon.impl_objects(mode, tname, cc, enc, data)
